@@ -583,7 +583,9 @@ func debugName(x *ssa.DebugRef) string {
 		_ = id
 	}
 	if obj := x.Object(); obj != nil {
-		return obj.Name()
+		if v, ok := obj.(*types.Var); ok && !v.IsField() && v.Pkg() != nil && v.Parent() != v.Pkg().Scope() {
+			return obj.Name()
+		}
 	}
 	return ""
 }
